@@ -7,8 +7,12 @@ A *case* (JSON-able dict) describes one connection:
     t0        virtual seconds to let pass before the connection is made (non-integer on purpose:
               the batched timer floors deadlines to whole seconds)
     acts      [[t_rel, kind, before], ...]  peer / application actions at t_c + t_rel (t_c = instant
-              of connection-made).  ``before`` = True: the action is performed before timers that
-              are due in the same instant, False: after them.
+              of connection-made).  ``before`` = True: the action is performed (and everything it
+              triggers has run) before timers that are due in the same instant, False: after them,
+              "iter": the octets arrive in the very event-loop iteration in which the timers are due
+              (asyncio: the read callback runs first, the due timers next, callbacks scheduled by the
+              read callback - e.g. the continuation of an ``onConnect`` future - after the timers;
+              Twisted runs the whole reaction synchronously, there "iter" is the same as True).
     rules     [{'on': 'ping', 'delay': d, 'do': kind, 'first': i, 'count': n, 'before': b}, ...]
               reactive peer behaviour: for auto-pings number first .. first+count-1 seen on the wire,
               perform ``kind`` ``d`` seconds after the ping was written.
@@ -40,6 +44,13 @@ fire in (D - 1, D].  Verdict rules (one-sided, as in the property statement):
       connection opened / the previous ping was answered
     * nothing observable happens after CLOSED (callbacks, writes, transport calls, state
       assignments, close-result attributes, exceptions reaching the framework)
+    * exactly one onClose per connection; a drop caused by a peer / application action names no timer
+
+Ordering at one instant: Twisted handles octets synchronously, so "action before the due timers" is
+simply the call order.  asyncio delivers octets through the loop (the adapter queues them and a
+future callback consumes them); for ``before=True`` the timer handles due at that instant are taken
+out of the loop while the action is delivered and put back afterwards, for ``before="iter"`` they
+stay, i.e. they run in the same ``_run_once`` as the read callback (step cause ``action+timer``).
 """
 
 import heapq
@@ -121,6 +132,26 @@ def jump(world, t):
             world.loop._vtime = t
 
 
+def hold_due_timers(world, t):
+    """asyncio only: take the timer handles that are due at ``t`` out of the loop so that an action
+    performed at ``t`` (whose delivery runs the loop until idle) is strictly ordered BEFORE them.
+    Returns the held handles; give them back with ``release_timers``."""
+    if world.fw != "aio":
+        return []
+    loop = world.loop
+    held = [hd for hd in loop._scheduled if hd._when <= t + EPS]
+    if held:
+        ids = set(map(id, held))
+        loop._scheduled[:] = [hd for hd in loop._scheduled if id(hd) not in ids]
+        heapq.heapify(loop._scheduled)
+    return held
+
+
+def release_timers(world, held):
+    for hd in held:
+        heapq.heappush(world.loop._scheduled, hd)
+
+
 class Sim:
     def __init__(self, case, R=None, trace=False):
         self.case = case
@@ -137,7 +168,8 @@ class Sim:
         self.restart = o.get("autoPingRestartOnAnyTraffic", True)
         # ---- book
         self.live = {}
-        self.responsive = {}        # kind -> (r, D) of a reaction with >= 1 s to spare
+        self.responsive = {}        # kind -> (r, D) of the latest reaction with >= 1 s to spare
+        self.resp_open = []         # [kind, r, D] reactions in time whose deadline has not passed yet (not yet credited)
         self.phase = "connecting"   # connecting | open | closing | closed
         self.hs_sent = 0            # 0 nothing, 1 first part, 2 complete
         self.our_close_at = None
@@ -219,7 +251,7 @@ class Sim:
         self.after_step("connect")
         for a in case.get("acts") or []:
             t_rel, kind = a[0], a[1]
-            before = bool(a[2]) if len(a) > 2 else False
+            before = _mode(a[2]) if len(a) > 2 else False
             self.push(self.t_c + t_rel, kind, before)
         self.horizon0 = self.horizon = self.t_c + case["horizon"]
         # ---- main phase
@@ -235,7 +267,7 @@ class Sim:
             if nd is not None:
                 if ta is not None:
                     before = self.agenda[0][3]
-                    fire = nd < ta - EPS or (nd <= ta + EPS and not before)
+                    fire = nd < ta - EPS or (nd <= ta + EPS and before is False)
                 else:
                     fire = nd <= self.horizon + EPS
                 if fire:
@@ -249,8 +281,19 @@ class Sim:
                 break
             t, _, kind, before = heapq.heappop(self.agenda)
             jump(W, t)
-            self.perform(kind)
-            self.after_step("action:" + kind)
+            timers_due = nd is not None and nd <= t + EPS
+            held = hold_due_timers(W, t) if (before is True and timers_due) else []
+            try:
+                self.perform(kind)
+            finally:
+                release_timers(W, held)
+            if timers_due and before == "iter" and W.fw == "aio":
+                # the due timers ran inside the delivery of this action (same loop iteration)
+                self.timer_steps += 1
+                self.R.count("same_iteration_steps")
+                self.after_step("action+timer:" + kind)
+            else:
+                self.after_step("action:" + kind)
         else:
             raise RuntimeError("C17 sim: main loop did not terminate")
         if W.now() < self.horizon:
@@ -292,7 +335,8 @@ class Sim:
         if kind == "api_close":
             if not self.lost and self.phase == "open" and self.dropped_at is None:
                 self.proto.sendClose(1000, "bye")
-                W.settle()
+                if W.fw == "aio":        # Twisted: everything ran synchronously; settle() would also run the timers due now
+                    W.settle()
             return
         if kind == "drop" or kind == "drop_clean":
             if self.lost:
@@ -382,6 +426,7 @@ class Sim:
         if margin >= 1.0 - EPS and not force_grey:
             del self.live[kind]
             self.responsive[kind] = (r, dl.D)
+            self.resp_open.append([kind, r, dl.D])
             self.R.count("reaction_in_time_%s" % kind)
         else:
             dl.grey = True
@@ -436,7 +481,7 @@ class Sim:
             cnt = rule.get("count")
             if n < first or (cnt is not None and n >= first + cnt):
                 continue
-            self.push(t + rule["delay"], rule["do"], bool(rule.get("before")))
+            self.push(t + rule["delay"], rule["do"], _mode(rule.get("before")))
 
     def on_our_close_written(self, t):
         if self.our_close_at is not None:
@@ -477,7 +522,10 @@ class Sim:
             out.append(("transport:" + "+".join(kinds), [list(map(_j, e)) for e in ev][:6]))
         if b["attrs"] != a["attrs"]:
             ch = [n for n, x, y in zip(RESULT_ATTRS, a["attrs"], b["attrs"]) if x != y]
-            out.append(("attr:" + "+".join(ch), {n: (x, y) for n, x, y in zip(RESULT_ATTRS, a["attrs"], b["attrs"]) if x != y}))
+            tag = "attr:" + "+".join(ch)
+            if "wasNotCleanReason" in ch:
+                tag += "/names-%s" % reason_kind(self.proto.__dict__.get("wasNotCleanReason"))
+            out.append((tag, {n: (x, y) for n, x, y in zip(RESULT_ATTRS, a["attrs"], b["attrs"]) if x != y}))
         if b["escaped"] != a["escaped"]:
             out.append(("exception", [repr(e) for e in (self.W.escaped + [(0, x) for x in self.ep.escaped])][-3:]))
         return out
@@ -522,11 +570,11 @@ class Sim:
             allesc = [x[1] for x in W.escaped] + list(ep.escaped)
             e = allesc[-1]
             if not self.lost:    # after CLOSED it is reported by the silence check
-                self.viol("escaped/%s/%s" % ("timer" if cause == "timer" else "io", type(e.exc).__name__),
+                self.viol("escaped/%s/%s" % ("timer" if cause == "timer" else ("io+timer" if cause.startswith("action+timer") else "io"), type(e.exc).__name__),
                           "exception reached the framework during a %s step: %r" % (cause, e), cause=cause)
             self.n_escaped = nesc
         # 4. effects between CLOSED (our close request) and the delivery of connection-lost
-        if self.snap_closed is not None and not self.lost and cause == "timer":
+        if self.snap_closed is not None and not self.lost and cause == "timer":   # (no octets are fed after our close request)
             s = self.snapshot()
             d = self.diff_snap(self.snap_closed, s)
             R.count("closed_not_lost_timer_steps")
@@ -540,7 +588,7 @@ class Sim:
         if ep.close_requested is not None and self.dropped_at is None and not self.lost:
             self.dropped_at = ep.close_requested_at
             self.drop_how = ep.close_requested
-            self.drop_cause = cause
+            self.drop_cause = cause.split(":")[0] if cause.startswith("action+timer") else cause
             self.phase_at_drop = self.phase
             self.live_at_drop = dict(self.live)
             self.pending_ping_at_drop = self.pending_ping
@@ -555,6 +603,15 @@ class Sim:
                 self.deliver_lost()
         # 6. overdue deadlines
         if self.dropped_at is None and not self.lost:
+            if self.resp_open:
+                keep = []
+                for it in self.resp_open:
+                    if now > it[2] + EPS:        # the deadline the peer met has passed and we are still connected
+                        R.count("responsive_not_dropped_%s" % it[0])
+                        self.fired.add("responsive-" + it[0])
+                    else:
+                        keep.append(it)
+                self.resp_open = keep
             for k, dl in list(self.live.items()):
                 if dl.grey and now > dl.D + EPS:
                     # a reaction with less than 1 s to spare was evidently accepted: the deadline is over
@@ -607,7 +664,15 @@ class Sim:
         R.seen("close_reports", "%s/%s/%s" % (who, closes[0][2:4] if closes else None,
                                               reason_kind(closes[0][4]) if closes else None))
         if len(closes) != 1:
-            self.viol("onclose-count/%d" % len(closes), "onClose was called %d times for one connection" % len(closes))
+            slog = list(self.proto.__dict__.get("vf_state_log", ()))
+            reopened = [(a, b) for a, b in slog if a == 0 and b != 0]
+            sub = "%s-%s" % (getattr(self, "phase_at_drop", self.phase), (self.drop_cause or who).split(":")[0])
+            if reopened:
+                sub += "/state-left-CLOSED"
+            self.viol("onclose-count/%d/%s" % (len(closes), sub),
+                      "onClose was called %d times for one connection (drop: %s at %s; state assignments %s; escaped %s)" % (
+                          len(closes), self.drop_cause or who, self.rel(self.dropped_at) if self.dropped_at is not None else None,
+                          slog, [repr(x) for x in self.ep.escaped][-2:]))
             if not closes:
                 return
         _, _, was_clean, code, reason = closes[0]
@@ -622,6 +687,9 @@ class Sim:
         live = self.live_at_drop
         cands = [k for k, dl in live.items() if dl.D - 1.0 + EPS < t_d <= dl.D + EPS]
         timer_step = (self.drop_cause == "timer")
+        if self.drop_cause == "action+timer":
+            # octets and due timers were handled in one loop iteration: the drop is the timer's iff a timer is named
+            timer_step = rk is not None
         if not timer_step:
             # dropped as the direct consequence of a peer/application action: no timer may be named
             if rk is not None:
@@ -646,6 +714,9 @@ class Sim:
             if dl.grey and t_d > dl.D + EPS:
                 self.viol("spurious-timer-drop/%s/%s" % (rk, self.phase_at_drop + ("-no-ping-on-wire" if rk == "ping" and self.pending_ping_at_drop is None else "")),
                           "dropped at %s and reported %r, but the only %s deadline (D=%s) was over" % (self.rel(t_d), reason, rk, self.rel(dl.D)))
+            elif not dl.grey and not dl.overdue_reported and t_d > dl.D + EPS:
+                self.viol("not-dropped-by-deadline/%s" % rk, "dropped by the %s timer %.3f s AFTER its deadline (armed %s, D=%s, dropped %s)" % (
+                    rk, t_d - dl.D, self.rel(dl.armed), self.rel(dl.D), self.rel(t_d)))
             elif t_d <= dl.D - 1.0 + EPS:
                 self.viol("dropped-early/%s" % rk, "dropped by the %s timer %.3f s before its deadline (armed %s, D=%s, dropped %s): "
                           "a peer with 1 s to spare would have been cut off" % (rk, dl.D - t_d, self.rel(dl.armed), self.rel(dl.D), self.rel(t_d)))
@@ -653,7 +724,12 @@ class Sim:
             return
         if rk is not None:
             # a timer drop naming a timer for which no deadline is running
-            if rk in self.responsive:
+            if rk == "ping" and self.pending_ping_at_drop is None:
+                self.viol("spurious-timer-drop/ping/%s-no-ping-on-wire" % self.phase_at_drop,
+                          "dropped at %s and reported %r, but no auto-ping was on the wire unanswered (%s)" % (
+                              self.rel(t_d), reason, "last one answered at %s" % self.rel(self.responsive["ping"][0])
+                              if "ping" in self.responsive else "none was ever sent / all were answered"))
+            elif rk in self.responsive:
                 r, D = self.responsive[rk]
                 self.viol("responsive-peer-dropped/%s/%s" % (rk, self.phase_at_drop),
                           "peer reacted at %s (deadline %s, %.2f s to spare) and was dropped at %s with %r" % (
@@ -686,11 +762,7 @@ class Sim:
         for k in list(self.live):
             if not self.live[k].grey and not self.live[k].overdue_reported:
                 self.R.count("unjudged_deadline_at_horizon")
-        # still connected: count what that proves
-        for k, (r, D) in self.responsive.items():
-            if self.W.now() > D + 1.0:
-                self.R.count("responsive_not_dropped_%s" % k)
-                self.fired.add("responsive-" + k)
+        # still connected (reactions whose deadline passed were credited when it passed)
         self.R.seen("final_phase", self.phase)
         self.react_all_void()
         self.ep.peer_close(clean=False)
@@ -723,13 +795,19 @@ class Sim:
     def evidence(self):
         R = self.R
         if self.dropped_at is not None or self.peer_dropped:
-            for k, (r, D) in self.responsive.items():
+            # the connection ended before the deadline the peer had met came up: credited iff no timer of that kind is blamed
+            for k, r, D in self.resp_open:
                 if k != self.timer_drop_kind:
                     R.count("responsive_not_dropped_%s" % k)
                     self.fired.add("responsive-" + k)
+            self.resp_open = []
         R.seen("phases_at_drop", "%s/%s" % (getattr(self, "phase_at_drop", None), self.drop_cause))
         for a, b in self.proto.__dict__.get("vf_state_log", ()):
             R.seen("transitions", "%s->%s" % (a, b))
+
+
+def _mode(b):
+    return "iter" if b == "iter" else bool(b)
 
 
 def _j(x):
